@@ -26,9 +26,9 @@ the implementation — for all engines, configurations (rewrite tables, hosts
 containers, safe-browsing / parental verdicts included), upstream answers and queries. -/
 theorem C01_model_meets_spec (e : Engines) (hwf : EnginesWF e) (c : Conf) (u : Upstream) (q : Query) :
     C01.specOK e c u q (handle e c u q) = true := by
-  unfold C01.specOK C01.check handle
+  unfold C01.specOK C01.check
   cases hres : reserved c q
-  · rw [shortCircuit_none c q hres]
+  · rw [handle_eq_main e c u q hres]
     simp only [Bool.false_eq_true, if_false]
     cases hpre : precededByOther e c q
     · simp only [Bool.false_eq_true, if_false]
@@ -101,7 +101,7 @@ theorem C01_blocked_not_forwarded (e : Engines) (hwf : EnginesWF e) (c : Conf) (
   rw [hips] at hsyn
   refine ⟨_, { reason := res.reason, isFiltered := true, svcName := res.svcName, origAnswer := none },
     ?_, hsyn, rfl, hreason⟩
-  unfold handle; rw [shortCircuit_none c q hdom, hh]
+  rw [handle_eq_main e c u q hdom, hh]
 
 /-- **No upstream data.**  The whole outcome of a blocked query is the same
 whatever the upstream would have answered. -/
@@ -111,8 +111,7 @@ theorem C01_blocked_independent_of_upstream (e : Engines) (hwf : EnginesWF e) (c
   have hpre := notPreceded_of_blocked e c q hb
   obtain ⟨r, hr, h1, _, _, _⟩ := checkHost_spec e hwf c q hpre
   obtain ⟨hf, hreason, _⟩ := h1 hb
-  unfold handle
-  rw [shortCircuit_none c q hdom, handleMain_of_ruleBlock e c u q r hr hf hreason,
+  rw [handle_eq_main e c u q hdom, handle_eq_main e c u' q hdom, handleMain_of_ruleBlock e c u q r hr hf hreason,
     handleMain_of_ruleBlock e c u' q r hr hf hreason]
 
 /-- **The blocking-mode table** (5 modes × A / AAAA / HTTPS / other): the
@@ -138,7 +137,7 @@ theorem C01_allow_forwarded (e : Engines) (hwf : EnginesWF e) (c : Conf) (u : Up
   have hob : otherBlocks e c q = false := by simp [otherBlocks, hf, ha]
   have happ : respFilterApplies e c q = false := by simp [respFilterApplies, ha]
   obtain ⟨ql, hql, hnf, _⟩ := (handleMain_forward e hwf c u q hpre hb hs hob).1 happ
-  exact ⟨ql, by unfold handle; rw [shortCircuit_none c q hdom, hql], hnf⟩
+  exact ⟨ql, by rw [handle_eq_main e c u q hdom, hql], hnf⟩
 
 /-- **No match ⇒ forwarded intact.**  A name that nothing answers or blocks
 (no rewrite / hosts entry, no rule or service block, no safe-browsing /
@@ -159,11 +158,11 @@ theorem C01_nomatch_forwarded (e : Engines) (hwf : EnginesWF e) (c : Conf) (u : 
   cases happ : respFilterApplies e c q
   · obtain ⟨ql, hql, hnf, _⟩ := h1 happ
     refine ⟨ql, hnf, ?_⟩
-    unfold handle; rw [shortCircuit_none c q hdom, hql]
+    rw [handle_eq_main e c u q hdom, hql]
     simp [Upstream.exchange]
   · obtain ⟨ql, hql, hnf, _⟩ := h2 happ hclean
     refine ⟨ql, hnf, ?_⟩
-    unfold handle; rw [shortCircuit_none c q hdom, hql]
+    rw [handle_eq_main e c u q hdom, hql]
     cases hd : c.aaaaDisabled
     · have hid : stripC c = id := by funext rr; simp [stripC, hd]
       rw [hid, List.map_id]; simp
@@ -192,7 +191,7 @@ theorem C01_protection_off (e : Engines) (hwf : EnginesWF e) (c : Conf) (u : Ups
   have hob : otherBlocks e c q = false := by simp [otherBlocks, hp]
   have happ : respFilterApplies e c q = false := by simp [respFilterApplies, hp]
   obtain ⟨ql, hql, hnf, _⟩ := (handleMain_forward e hwf c u q hpre hb hs hob).1 happ
-  exact ⟨ql, hnf, by unfold handle; rw [shortCircuit_none c q hdom, hql]⟩
+  exact ⟨ql, hnf, by rw [handle_eq_main e c u q hdom, hql]⟩
 
 /-- … and with protection off nothing is ever recorded as filtered, whatever the
 rewrite table and the hosts container hold. -/
@@ -244,18 +243,17 @@ theorem C01_client_filtering_off (e e' : Engines) (c : Conf) (u : Upstream) (q :
         rw [hsvc, hsb, hpa]
       simp only [hfs, Bool.false_eq_true, if_false, hs1 e, hs1 e', matchHost_off e c _ _ hoff,
         matchHost_off e' c _ _ hoff, hca]
-  unfold handle handleMain
-  rw [hck]
-  cases shortCircuit c q with
-  | some o => rfl
-  | none =>
-    dsimp only
+  have hmain : handleMain e c u q = handleMain e' c u q := by
+    unfold handleMain
+    rw [hck]
     cases checkHost e' c (trimDot q.name) q.qtype (settings c) with
     | error f => rfl
     | ok res =>
       dsimp only
       unfold forwardStage
       simp [hfs]
+  unfold handle dhcpStage
+  rw [hmain]
 
 /-- … and with filtering off and neither a blocked service in force nor safe
 browsing / parental matching, the query is simply forwarded. -/
@@ -267,7 +265,7 @@ theorem C01_client_filtering_off_forwarded (e : Engines) (hwf : EnginesWF e) (c 
   have happ : respFilterApplies e c q = false := by simp [respFilterApplies, hf]
   obtain ⟨ql, hql, hnf, _⟩ :=
     (handleMain_forward e hwf c u q (notPreceded_of_filtOff e c q hf) hb hs hob).1 happ
-  exact ⟨ql, hnf, by unfold handle; rw [shortCircuit_none c q hdom, hql]⟩
+  exact ⟨ql, hnf, by rw [handle_eq_main e c u q hdom, hql]⟩
 
 /-- **The allow engine is consulted first**: any match there (even a
 blocking-style line put into an allow list) makes the name allow-listed,
@@ -314,8 +312,7 @@ theorem C01_rewrite_precedes_block (e : Engines) (c : Conf) (u : Upstream) (q : 
       else
         .done (cnameWithIPs c q (rewriteIPs e c q) (rewriteCanon e c q)) []
           (some { reason := .rewritten, isFiltered := false, svcName := [], origAnswer := none }) := by
-  unfold handle
-  rw [shortCircuit_none c q hdom, handleMain_rewritten e c u q hf hq hrw]
+  rw [handle_eq_main e c u q hdom, handleMain_rewritten e c u q hf hq hrw]
 
 /-- Corollary: two systems that differ only in rule lists, services and
 safe-browsing / parental / hosts verdicts treat a rewritten name identically. -/
@@ -396,8 +393,7 @@ theorem C01_hosts_precede_block (e : Engines) (c : Conf) (u : Upstream) (q : Que
       · exact absurd h hs
       · exact ⟨h, matchSysHosts_notFiltered _ _ _ _ _⟩
   refine ⟨(matchSysHosts e c (qhost q) q.qtype (settings c)).hostVals, ?_⟩
-  unfold handle
-  rw [shortCircuit_none c q hdom]
+  rw [handle_eq_main e c u q hdom]
   unfold handleMain checkHost
   simp only [hh, if_false]
   rw [hqh, settings_filtering, hf]
@@ -436,6 +432,9 @@ def toyConf : Conf :=
 def toyQ : Query := { name := [65, 100, 115, 46, 69, 120, 97, 109, 112, 108, 101, 46], qtype := tA }
 /-- "ok.ads.example." A -/
 def toyQ2 : Query := { name := [111, 107, 46, 97, 100, 115, 46, 101, 120, 97, 109, 112, 108, 101, 46], qtype := tA }
+
+/-- "oK.Ads.example." A -/
+def toyQ2Mixed : Query := { name := [111, 75, 46, 65, 100, 115, 46, 101, 120, 97, 109, 112, 108, 101, 46], qtype := tA }
 
 /-- the hypotheses of `C01_blocked_not_forwarded` are satisfiable … -/
 example : reserved toyConf toyQ = false ∧ blockedByRules toyEngines toyConf toyQ = true := by
@@ -898,6 +897,34 @@ theorem C01_rules_hosts_line_any_type (rs : List Rule) (hr : HostRule) (q : ReqI
       cases hl : (hostHits (hostRules rs) q.host).filter (fun ip => ip.v6) with
       | nil => rw [hl] at this; cases this
       | cons _ _ => simp
+
+/-- **The question is never re-spelled.**  Whatever the server answers
+(blocked, forwarded, rewritten, from the hosts container), the question section
+of the response carries the name and type of the request BYTE FOR BYTE (letter
+case included; no hypothesis beyond the name not being a DHCP-client name under
+the local domain); and when no legacy rewrite / hosts entry answers first and
+neither safe browsing nor parental control blocks, the only question the
+upstream is ever asked is again exactly the client's. -/
+theorem C01_question_case_preserved (e : Engines) (hwf : EnginesWF e) (c : Conf) (u : Upstream) (q : Query)
+    (m : Msg) (log : List Query) (ql : Option QLog) (h : handle e c u q = .done m log ql) :
+    (dhcpHost c q = none → m.qname = q.name ∧ m.qtype = q.qtype) ∧
+    (reserved c q = false → precededByOther e c q = false → otherBlocks e c q = false → ∀ x ∈ log, x = q) := by
+  refine ⟨fun hd => handle_question e c u q hd m log ql h, ?_⟩
+  intro hdom hpre hob
+  rw [handle_eq_main e c u q hdom] at h
+  exact handleMain_log e hwf c u q hpre hob m log ql h
+
+/-- non-vacuity: the mixed-case `Ads.Example.` is blocked and the answer echoes that
+spelling, not the lower-case one the rules were matched against -/
+example : ∀ u, ∃ m ql, handle toyEngines toyConf u toyQ = .done m [] ql ∧ m.qname = toyQ.name ∧
+    m.qname ≠ lower toyQ.name := by
+  intro u
+  refine ⟨msgNXDOMAIN toyConf toyQ, _, rfl, rfl, by decide⟩
+
+/-- non-vacuity: a forwarded mixed-case query reaches the upstream in the client's spelling -/
+example : ∀ u, ∃ m ql, handle toyEngines toyConf u toyQ2Mixed = .done m [toyQ2Mixed] ql ∧ m.qname = toyQ2Mixed.name := by
+  intro u
+  refine ⟨u.exchange toyQ2Mixed, _, rfl, rfl⟩
 
 /-! ## Configuration-sequence model (`AGH/Model/FilterConfig.lean`) -/
 
